@@ -178,7 +178,7 @@ class CVRPTWEnv(CVRPEnv):
         assert torch.all(td["time_windows"] >= 0.0), "Time windows must be non-negative."
         assert torch.all(
             td["time_windows"][..., :, 0] + distances + td["durations"]
-            <= td["time_windows"][..., 0, 1][0]  # max_time is the same for all batches
+            <= td["time_windows"][..., 0, 1][:, None]  # each instance has its own horizon
         ), "vehicle cannot perform service and get back to depot in time."
         assert torch.all(
             td["durations"] >= 0.0
